@@ -119,6 +119,12 @@ def lemmas_unit(ctx):
                 'every documented escape form (hex digits of either case) '
                 'is in L(ESCAPE_SEQUENCE_RE)',
                 None if st == 'proved' else 'witness: %r' % w)
+            st, w = R.decide_empty(z3.Intersect(E, z3.Concat(
+                documented, z3.Plus(documented))))
+            add('escape:one-unit-per-match', st,
+                'no match of ESCAPE_SEQUENCE_RE is a run of two or more '
+                'well-formed escapes: consecutive escapes are decoded one '
+                'by one', None if st == 'proved' else 'witness: %r' % w)
             st, w = R.decide_empty(z3.Intersect(E, z3.Complement(
                 z3.Concat(BS, z3.Plus(any1)))))
             add('escape:starts-with-backslash', st,
@@ -131,6 +137,24 @@ def lemmas_unit(ctx):
         st, d = R.prefix_excluded(rx['t_KEYWORD_STRING'], '__')
         add('keyword:no-dunder', st, 'keyword tokens cannot start with "__"',
             d)
+        # ... and every other identifier-shaped word IS a keyword token (it
+        # denotes its own text): letters / digits / underscores, not starting
+        # with a digit nor with two underscores
+        try:
+            K = R.to_z3(rx['t_KEYWORD_STRING'])
+            letter = z3.Union(z3.Range('a', 'z'), z3.Range('A', 'Z'))
+            word = z3.Union(letter, z3.Range('0', '9'), z3.Re('_'))
+            ident = z3.Concat(z3.Union(letter, z3.Re('_')), z3.Star(word))
+            dunder = z3.Concat(z3.Re('__'), z3.Star(word))
+            st, w = R.decide_empty(z3.Intersect(
+                ident, z3.Complement(dunder), z3.Complement(K)))
+            add('keyword:identifiers-accepted', st,
+                'every identifier-shaped word not starting with "__" matches '
+                'the keyword token regex', None if st == 'proved'
+                else 'witness: %r' % w)
+        except R.Unsupported as e:
+            add('keyword:identifiers-accepted', 'unknown',
+                'regex translation', str(e))
     return dict(obligations=out, trusted=['z3 regular-expression theory'])
 
 
